@@ -27,7 +27,7 @@ META = {
         "warnings: at least one per unsupported non-blank line and at most one more per blank line (the documentation is silent on blank lines)",
         "a custom edge type's own from_g2o is harness code; what is checked is its dispatch (one object per line, in order, unaffected by other lines)",
     ],
-    "required_classes": ["duplicate_line", "huge_ids", "two_custom_types", "perm", "junk1", "junk2", "fmt", "sep", "loader", "crlf", "near_miss_tag", "ten_thousand_lines", "information_with_zeros", "embedded_tag", "custom_type_with_parameters", "custom_tag", "param_resolved"],
+    "required_classes": ["duplicate_line", "huge_ids", "two_custom_types", "perm", "junk1", "junk2", "fmt", "sep", "loader", "crlf", "near_miss_tag", "custom_tag_without_registration", "ten_thousand_lines", "information_with_zeros", "embedded_tag", "custom_type_with_parameters", "custom_tag", "param_resolved"],
     "bounds": {"quick": "all 5040 + 2520 line orders; junk <= 2 insertions into 2 base files; 10 formats x every field; 3 separators x 3 endings x 6 loaders", "thorough": "same + junk pairs on every rotation of the base files + 3 insertions of the near-miss tags"},
 }
 
@@ -248,6 +248,8 @@ def run_chunk(chunk, tier, seed):
                     for eol, fin in (("\n", True), ("\r\n", True), ("\n", False)):
                         for loader in range(6):
                             _do(acc, {"t": "sep", "base": b, "sep": sep, "trail": trail, "eol": eol, "final": fin, "loader": loader}, ctx)
+                            if sep == " " and trail == "":
+                                _do(acc, {"t": "sep", "base": b, "sep": sep, "trail": trail, "eol": eol, "final": fin, "loader": loader, "unregistered_custom": True}, ctx)
         elif typ == "bigid":
             # ids are integers, not doubles: values beyond 2^53 must survive (each id of the file replaced consistently)
             ids = sorted({ln[k] for ln in base for k in range(1, 4) if ln[0].startswith(("VERTEX", "EDGE")) and k < len(ln) and (ln[0].startswith("VERTEX") and k == 1 or ln[0].startswith("EDGE") and k <= 2)})
@@ -351,6 +353,11 @@ def text_of(case):
         lines[case["line"]][case["field"]] = case["fmt"]
     elif t == "sep":
         lines = [l for l in base if l[0] != "CUSTOM_PRIOR"]
+        lines.insert(2, "# a comment line (every entry point warns about it)")
+        if case.get("unregistered_custom"):
+            # a line of a custom tag while NO custom type is registered for this call: an unrecognised line like any other
+            lines.insert(4, ["CUSTOM_PRIOR", "0", "0.5", "-0.5", "1.0", "0.5", "2.0"])
+            classes.append("custom_tag_without_registration")
         kw = {"sep": case["sep"], "trail": case["trail"], "eol": case["eol"], "final_eol": case["final"]}
         classes.append("loader")
         if case["eol"] == "\r\n":
@@ -456,6 +463,11 @@ def _prelude(ctx):
         g = I.Graph.from_g2o(path)
         assert len(I.graph_vertices(g)) == 6 and len(I.graph_edges(g)) == 4
         _scribble(g)
+        # ... and an earlier import in this process registered custom edge types for ITS call
+        p2 = os.path.join(ctx["tmp"], "prelude_custom.g2o")
+        with open(p2, "w", newline="") as f:
+            f.write(render([list(l) for l in CUSTOM_LINES]))
+        I.Graph.from_g2o(p2, custom_edge_types=[CustomPrior, CustomPair])
     finally:
         lg.setLevel(old)
 
@@ -473,12 +485,12 @@ def _eval_unguarded(case, ctx):
     msgs = []
     _prelude(ctx)
     text, classes = text_of(case)
-    has_custom = "CUSTOM_PRIOR" in text or "CUSTOM_LM3" in text
+    has_custom = ("CUSTOM_PRIOR" in text or "CUSTOM_LM3" in text) and not case.get("unregistered_custom")
     if has_custom:
         classes.append("custom_tag")
     if "EDGE_SE3_TRACKXYZ" in text:
         classes.append("param_resolved")
-    ref = RG.parse(text, CUSTOM)
+    ref = RG.parse(text, {} if case.get("unregistered_custom") else CUSTOM)
     path = os.path.join(ctx["tmp"], "f.g2o")
     with open(path, "w", newline="") as f:
         f.write(text)
@@ -523,7 +535,12 @@ def _eval_unguarded(case, ctx):
     loads = 1
     if case["t"] == "sep":
         # all loader entry points agree with Graph.from_g2o bitwise
-        g0 = g2oio.describe_graph(_load(path, 0, None))
+        lvl = lg.level
+        lg.setLevel(logging.CRITICAL)
+        try:
+            g0 = g2oio.describe_graph(_load(path, 0, None))
+        finally:
+            lg.setLevel(lvl)
         loads += 1
         if _bits(g0) != _bits(got):
             msgs.append("%s returns a different graph than Graph.from_g2o for the same file" % LOADERS[loader])
